@@ -339,3 +339,86 @@ func TestKnownD17(t *testing.T) {
 		t.Fatalf("parameter (IA, subtype b) received the value labelled (IA, subtype a) in %d/50 calls", bad)
 	}
 }
+
+// ---- D18 (C05): named 2-cycle of single-input converters ----
+type W1 int
+type W2 int
+type W3 int
+type W4 int
+type W5 int
+type W6 int
+
+func TestD18(t *testing.T) {
+	for i := 0; i < 100; i++ {
+		target := am.MustFunc(am.NewFunc(func(in struct {
+			am.Struct
+			B W6
+		}) int {
+			return int(in.B)
+		}))
+		g1 := func(x W1) struct {
+			am.Struct
+			B W2
+		} {
+			return struct {
+				am.Struct
+				B W2
+			}{B: W2(x)}
+		}
+		g2 := func(x W2) struct {
+			am.Struct
+			A W3 `argmapper:",subtype=s"`
+		} {
+			return struct {
+				am.Struct
+				A W3 `argmapper:",subtype=s"`
+			}{A: W3(x)}
+		}
+		h1 := func(x W4) struct {
+			am.Struct
+			A W5
+		} {
+			return struct {
+				am.Struct
+				A W5
+			}{A: W5(x)}
+		}
+		h2 := func(x W5) struct {
+			am.Struct
+			B W6 `argmapper:",subtype=s"`
+		} {
+			return struct {
+				am.Struct
+				B W6 `argmapper:",subtype=s"`
+			}{B: W6(x)}
+		}
+		c1 := func(in struct {
+			am.Struct
+			A W3
+		}) struct {
+			am.Struct
+			B W6
+		} {
+			return struct {
+				am.Struct
+				B W6
+			}{B: W6(in.A)}
+		}
+		c2 := func(in struct {
+			am.Struct
+			B W6
+		}) struct {
+			am.Struct
+			A W3
+		} {
+			return struct {
+				am.Struct
+				A W3
+			}{A: W3(in.B)}
+		}
+		r := target.Call(nolog, am.Named("b", W1(1)), am.Named("a", W4(4)), am.Converter(g1, g2, h1, h2, c1, c2))
+		if r.Err() != nil {
+			t.Fatalf("derivable call failed: %v", r.Err())
+		}
+	}
+}
